@@ -766,7 +766,7 @@ class RemoteStreamFlowPath(
         if (inner_path := await self._get_inner_path()) != self:
             await inner_path.rmtree()
         else:
-            command = ["rm", "-rf", self.__str__()]
+            command = ["rm", "-rf", shlex.quote(self.__str__())]
             result, status = await self.connector.run(
                 location=self.location, command=command, capture_output=True
             )
